@@ -55,7 +55,7 @@ Definition ok (cs : case) : bool :=
   match cs with
   | CProg c x steps => check c x steps
   | CAz x after vals =>
-      data_close (orows (after_read FOps PAzimuth x)) after
+      data_close (orows (after_read PAzimuth x)) after
       && ang_close (azimuth_values FOps x) vals
   end.
 """
@@ -250,10 +250,7 @@ def run(tier, seed):
                       "comparison before/after; distinct = distinct (class, shape, flags, metadata, program); "
                       "non-trivial = more than one element or more than one step")
     ck.cov["exhaustive"] = (tier != "quick")
-    ck.cov["partial_or_refuted"] = [
-        "C16_transpose_flags_refuted", "C16_unit_flags_refuted", "C16_misorientation_unit_symmetry_refuted",
-        "C16_misorientation_neg_symmetry_refuted", "C16_miller_squeeze_refuted", "C16_miller_neg_metadata_refuted",
-        "C16_azimuth_mutation_refuted"]
+    ck.cov["partial_or_refuted"] = ["C16_other_properties_pure_partial"]
     return ck.finish()
 
 
